@@ -95,6 +95,34 @@ class Check:
     def not_decided(self, *clauses):
         self.clauses_not_decided += clauses
 
+    # ---- dependency clauses
+    def include(self, pid, why, **kw):
+        """Evaluate (part of) another property's rules as a dependency clause of this one: a violation there breaks this property too.
+        Violation keys are prefixed dep-<pid>/ ; a known finding of the dependency stays a known finding here."""
+        import importlib
+        mod = importlib.import_module('qxlib.props.%s' % pid)
+        sub = Check(pid, self.tier, self.seed, self.facts)
+        try:
+            mod.run(sub, **kw)
+        except AnchorMissing as e:
+            sub.violation('anchor', 'missing/%s' % e, str(e), 'anchor-missing: function %s no longer exists (fail closed)' % e)
+        self.obligations += sub.obligations
+        self.discharged += sub.discharged
+        for v in sub.violations:
+            self.violations.append({'key': 'dep-%s/%s' % (pid, v['key']), 'rule': v['rule'], 'site': v['site'], 'msg': '[dependency clause, %s rules: %s] %s' % (pid, why, v['msg']), 'dep': (pid, v['key'])})
+        for r, (a, b) in sub.rules.items():
+            t = self.rules.setdefault('dep-%s:%s' % (pid, r), [0, 0])
+            t[0] += a
+            t[1] += b
+        self.functions |= sub.functions
+        self.controls += [('dep-%s: %s' % (pid, n), f) for n, f in sub.controls]
+        self.floors += [('dep-%s:%s' % (pid, r), c, f) for r, c, f in sub.floors]
+        self.exceptions += [('dep-%s/%s' % (pid, k), r) for k, r in sub.exceptions]
+        self.errors += sub.errors
+        parts = kw.get('parts')
+        self.notes.append('dependency clause: %s rules%s are evaluated here as well (%s); obligations dep-%s:* in rule_instances' % (pid, (' (parts %s)' % ','.join(parts)) if parts else '', why, pid))
+        self.clauses_decided.append('dependency: %s%s — %s' % (pid, (' ' + '/'.join(parts)) if parts else '', why))
+
     # ---- finish
     def finish(self):
         known = load_known()
@@ -107,7 +135,7 @@ class Check:
             if v['key'] in seen:
                 continue
             seen.add(v['key'])
-            e = kf.get((self.pid, v['key']))
+            e = kf.get((self.pid, v['key'])) or (kf.get(v['dep']) if v.get('dep') else None)
             if e:
                 listed.append((v, e))
             else:
